@@ -364,6 +364,22 @@ var Hostile = [][]byte{
 	{0x89, 'I', 'V', 'G', 0x00, 0xc0, 0x03, 0x00, 0x80, 0x7f, 0x03, 0x00, 0xc0, 0x7f, 0xc0, 0x03, 0x00, 0x80, 0xff, 0x03, 0x00, 0xc0, 0xff, 0x08, 0x06, 0x80, 0x80, 0xe1},
 }
 
+func init() {
+	// two metadata chunks whose declared lengths are both wrong, by every pair of small amounts
+	// (also pairs that sum to zero, so that the metadata as a whole ends where it should)
+	for d1 := -3; d1 <= 3; d1++ {
+		for d2 := -3; d2 <= 3; d2++ {
+			if d1 == 0 && d2 == 0 {
+				continue
+			}
+			Hostile = append(Hostile, []byte{0x89, 'I', 'V', 'G', 0x04,
+				byte(5+d1) << 1, 0x00, 0x50, 0x50, 0xb0, 0xb0,
+				byte(5+d2) << 1, 0x02, 0x80, 0x12, 0x34, 0x56,
+				0xc0, 0x70, 0x70, 0x01, 0x90, 0x70, 0x80, 0x90, 0xe1})
+		}
+	}
+}
+
 // Mutate draws a mutation of b (other provides material for splices).
 func Mutate(t *rapid.T, b, other []byte) []byte {
 	out := append([]byte{}, b...)
